@@ -82,6 +82,8 @@ func runC08(c *Ctx) {
 		}
 	}
 	L.Floor("lock-released", 2, "setErr and the worker's max/uncompute section")
+	c.checkWorkersDrain(r, "workers-drain")
+	L.Floor("workers-drain", 1, "worker loop")
 	c.checkWeightedAccumulation("weighted-accumulation")
 	L.Floor("weighted-accumulation", 12, "accumulations in the five counters and probaNt")
 
